@@ -230,29 +230,31 @@ func runPlanCase(w *out.W, tmp string, c *planCase) {
 			w.Violation(c.id, "scanner-options-drift", fmt.Sprintf("%s: Scanner{%s options} differs from the reader's scanner", c.desc, oname))
 		}
 	}
-	// closedness of every command under the reader's options and delimiter (Go port of
-	// ClosedModel.v; the extracted model prints the same line)
+	// closedness of every command under the reader's options and delimiter, and the decidable
+	// hypothesis of C07_roundtrip (Go ports of ClosedModel.v / FmtHyp.v; the extracted model prints
+	// the same two lines)
 	cd := effDelim(c.fm, p)
 	cb := make([]byte, len(p.Changes))
-	allClosed := delimOK(cd)
+	hcs := make([]hypChange, len(p.Changes))
 	for i, ch := range p.Changes {
 		cb[i] = '0'
 		if scanClosed(opts, cd, ch.Cmd) {
 			cb[i] = '1'
 			w.Count("cmd-closed:" + c.fm.name)
 		} else {
-			allClosed = false
 			w.Count("cmd-not-closed:" + c.fm.name)
 		}
-		if strings.Contains(ch.Comment, "\n") {
-			allClosed = false
-		}
+		rs, _ := ch.ReverseStmts()
+		hcs[i] = hypChange{ch.Cmd, ch.Comment, rs}
 	}
 	cbs := string(cb)
 	if cbs == "" {
 		cbs = "-"
 	}
 	obs = append(obs, "closed "+cbs)
+	hyp := roundtripHyp(c.fm.name, opts, p.Delimiter, p.Directives, hcs)
+	obs = append(obs, fmt.Sprintf("hyp %v", hyp))
+	w.Count(fmt.Sprintf("hyp:%s:%v", c.fm.name, hyp))
 	// case line
 	toks := []string{c.fm.name, bits(opts), hx(now), hx(p.Version), hx(p.Name), hx(p.Delimiter), fmt.Sprint(len(p.Directives))}
 	for _, d := range p.Directives {
@@ -305,46 +307,15 @@ func runPlanCase(w *out.W, tmp string, c *planCase) {
 			w.Violation(c.id, triggerClass(c), msg)
 		}
 	}
-	// the theorem's reading of the real code: a plan of closed commands (and newline-free
-	// comments) must round-trip for the readers the theorem covers
-	if c.fm.name == "liquibase" {
-		for _, ch := range p.Changes {
-			rs, _ := ch.ReverseStmts()
-			for _, r := range rs {
-				if strings.Contains(r, "\n") {
-					allClosed = false
-				}
-			}
-		}
-		if len(p.Changes) == 0 {
-			allClosed = false
-		}
-	}
-	if allClosed && !ok && theoremCovers(c) {
-		w.Violation(c.id, "closed-but-not-roundtrip", c.desc+": every command is scan_closed but the real reader returned other statements (C07_roundtrip would be false of the real code)")
+	// the theorem's reading of the real code: C07_roundtrip says that a case satisfying the
+	// decidable hypothesis round-trips, for every formatter
+	if hyp && !ok {
+		w.Violation(c.id, "closed-but-not-roundtrip", c.desc+": roundtrip_hyp holds but the real reader returned other statements (C07_roundtrip would be false of the real code)")
 	}
 	if ok && len(p.Changes) > 0 {
 		key := c.d.name + "/" + c.fm.name + "/" + hx(p.Delimiter) + "/" + c.class
 		w.NonTrivial(key)
 	}
-}
-
-// goose and dbmate readers filter lines before scanning: C07_roundtrip covers them under extra
-// side conditions (no pragma words); they are excluded from the "closed => round trip" check
-// unless those conditions hold.
-func theoremCovers(c *planCase) bool {
-	switch c.fm.name {
-	case "goose":
-		return false
-	case "dbmate":
-		for _, ch := range c.plan.Changes {
-			if strings.Contains(ch.Cmd, "down") || strings.Contains(ch.Cmd, "-- migrate:") || strings.Contains(ch.Cmd, "\r") ||
-				strings.Contains(ch.Comment, "down") || strings.Contains(ch.Comment, "-- migrate:") || strings.Contains(ch.Comment, "\r") {
-				return false
-			}
-		}
-	}
-	return true
 }
 
 func trunc(s string, n int) string {
